@@ -32,9 +32,9 @@ type CGEdge struct {
 }
 
 type CallGraph struct {
-	c     *Ctx
-	Out   map[*ssa.Function][]*CGEdge
-	In    map[*ssa.Function][]*CGEdge
+	c   *Ctx
+	Out map[*ssa.Function][]*CGEdge
+	In  map[*ssa.Function][]*CGEdge
 	// methodsByName: method name -> module methods (origin functions)
 	methodsByName map[string][]*ssa.Function
 	// extMethodsByName: method name -> external functions promoted into module
